@@ -4,9 +4,9 @@ From Verif Require Import Base.Check Model.Teardown Model.TeardownSpec.
 Import ListNotations.
 
 (* ---- stream dhcp ---- *)
-Definition DC (lo hi : N) (av : list N) (lease : Z) (radius qos nat : bool) (natcap : N) (cache : bool) : dcfg :=
+Definition DC (lo hi : N) (av : list N) (lease : Z) (radius qos nat : bool) (natcap : N) (cache : bool) (fl : list N) : dcfg :=
   {| c_lo := lo; c_hi := hi; c_avail0 := av; c_lease := lease; c_radius := radius; c_qos := qos;
-     c_nat := nat; c_natcap := natcap; c_cache := cache |}.
+     c_nat := nat; c_natcap := natcap; c_cache := cache; c_full := fl |}.
 Definition dcase := (dcfg * list (dop * dout))%type.
 Definition dstepc (cs : dcfg * dst) (o : dop) : (dcfg * dst) * dout * list N :=
   let '(s', r, mk) := dstepo (fst cs) (snd cs) o in ((fst cs, s'), r, mk).
